@@ -388,6 +388,8 @@ def mk_values(max_ops, thorough, part, nparts):
                         kind = fn(render(skel, m_))
                     except ZeroDivisionError:
                         continue
+                    except Exception:
+                        kind = 'exception'        # the concrete replay names it
                     if kind is not True:
                         r, model = 'sat', m_
                         break
